@@ -29,6 +29,12 @@ DEFERRED_OK = ("While.test", "FunctionDef.body", "ClassDef.body")
 PER_ITERATION_OK = ("While.body", "For.body")
 
 
+def _at_most_once(pr, over):
+    """The context says the iterated list has at most one element."""
+    iv = getattr(pr, "intervals", {}).get(f"len({over})")
+    return iv is not None and iv[1] is not None and iv[1] <= 1
+
+
 def _hole_events(evs):
     return [e for e in evs if e.kind in ("X", "raw", "S")]
 
@@ -56,6 +62,8 @@ def rule_r1(ctx):
                         if over.startswith("iterations@"):
                             if not path.startswith(PER_ITERATION_OK):
                                 bad = ("per-iteration", f"hole {path} lies inside the per-iteration part of the loop comprehension at {over[11:]}")
+                        elif _at_most_once(pr, over):
+                            continue
                         else:
                             base = re.sub(r"^(reversed|chain|zip)\((.*)\)$", r"\2", over)
                             base = norm_path(base)
